@@ -903,7 +903,7 @@ Section Sim.
               (inl (mkS g (pc + length (exits K c L)) (firstn (f_base fr + l_nloc L) stk) (fr :: frs)
                         (skipn (c_try c - l_try L) hs) rp he out)).
     Proof.
-      intros Hc Hl H1 H2. unfold exits in *. cbn [break_pops_handlers cfg_assign] in *.
+      intros Hc Hl H1 H2. unfold exits in *. cbn [break_pops cfg_assign npops] in *.
       apply code_at_app in Hc. destruct Hc as [Ha Hb]. rewrite repeat_length in Hb.
       rewrite app_length, !repeat_length.
       eapply steps_trans; [eapply run_pop_handlers; [discriminate|exact Ha]|].
@@ -1679,10 +1679,16 @@ Proof. refute. Qed.
 Definition wit_native_finally := "6 0 1 13 2 1;6 1 0 12 0 3".
 Lemma native_site_needs_flag_refuted : refutes cfg_flag_at_sites_but_native wit_native_finally None.
 Proof. refute. Qed.
+(* popping at most one handler: a break that leaves two nested try blocks keeps the outer handler, which takes a
+   later exception of the same function and re-enters the loop's catch clause *)
+Definition wit_break_two_tries := "1 7 2 6 1 0 6 1 0 9 2 5 2 6 4 7;6 1 0 12 0 3".
+Lemma break_pops_all_refuted_one : refutes cfg_break_pops_one wit_break_two_tries None.
+Proof. refute. Qed.
 Lemma repaired_today :
   eval_spec (parse_prog wit_catch_pops_outer) 20 = run_m cfg_today (parse_prog wit_catch_pops_outer) 2000 /\
   eval_spec (parse_prog wit_break_in_try) 20 = run_m cfg_today (parse_prog wit_break_in_try) 2000 /\
-  eval_spec (parse_prog wit_native_finally) 20 = run_m cfg_today (parse_prog wit_native_finally) 2000.
+  eval_spec (parse_prog wit_native_finally) 20 = run_m cfg_today (parse_prog wit_native_finally) 2000 /\
+  eval_spec (parse_prog wit_break_two_tries) 20 = run_m cfg_today (parse_prog wit_break_two_tries) 2000.
 Proof. vm_compute. repeat split; reflexivity. Qed.
 
 (* the headline for any configuration that equals today's (props/C08.v instantiates it with the regenerated one) *)
